@@ -5,6 +5,7 @@ import MidoModel.Tempo
 import MidoModel.Smf
 import MidoModel.MidiFileState
 import MidoModel.Backend
+import MidoModel.Syx
 /- Text protocol helpers for the driver: parsing requests, printing canonical results. -/
 namespace Mido
 
